@@ -85,10 +85,10 @@ def run(prop, replay=None):
         v.add_report(rc)
         v.notes.append("coordinator protocol: %d schedules on the real CheckpointCoordinator, %d completed checkpoints, %d model mismatches" % (rc["total"], rc["counters"].get("completed_checkpoints", 0), rc["counters"].get("model_mismatch", 0)))
     if prop == "C26":
-        for n in ((3000,) if quick else (3000, 20000, 50000)):
-            rp = os.path.join(w, "load_%d.json" % n)
-            run_harness("vh", ["ctx-load", rp, n], timeout=3000)
+        for n, shape in (((3000, "ident"), (600, "alias"), (600, "seq"), (600, "kleene")) if quick else ((3000, "ident"), (20000, "ident"), (50000, "ident"), (5000, "alias"), (5000, "seq"), (5000, "kleene"))):
+            rp = os.path.join(w, "load_%d_%s.json" % (n, shape))
+            run_harness("vh", ["ctx-load", rp, n, shape], timeout=3000)
             rl = load_report(rp)
             v.add_report(rl)
-            v.notes.append("orchestrator burst of %d events vs the same program without contexts: %d outputs compared" % (n, rl["counters"].get("load_outputs", 0)))
+            v.notes.append("orchestrator burst of %d events (consumer shape %s) vs the same program without contexts: %d outputs compared" % (n, shape, rl["counters"].get("load_outputs", 0)))
     return v.finish()
